@@ -168,6 +168,7 @@ def run(an: Analysis, rep):
     from . import json_fold as _jf
     rep.run(_jf.fold_rule, an, shj)
     rep.run(_jf.encode_fold_rule, an, shj)
+    rep.run(_jf.constants_fold_rule, an, shj)
     from .common import rebuild_rule
     rep.run(rebuild_rule, an, shj, "R07.8", ["from_json"])
 
